@@ -83,7 +83,7 @@ func (i *ReceiverInterceptor) BindRemoteStream(
 			return n, attr, err
 		}
 		packet := &rtp.Packet{}
-		if err := packet.Unmarshal(buf); err != nil {
+		if err := packet.Unmarshal(buf[:n]); err != nil {
 			return 0, nil, err
 		}
 		i.m.Lock()
